@@ -298,10 +298,11 @@ Section ReloaderProofs.
   (* what a poll of a changed-mtime file does to the remembered mtime/text *)
   Lemma poll_remembers l pm f m :
     l_running l = true -> r_mtime (l_st l) = Some pm -> stat f = Some m ->
-    r_mtime (l_st (poll l f)) = Some m /    r_text (l_st (poll l f)) = match f with
-                               | File _ t => if N.eqb pm m then r_text (l_st l) else t
-                               | _ => r_text (l_st l)
-                               end.
+    r_mtime (l_st (poll l f)) = Some m /\
+    r_text (l_st (poll l f)) = (match f with
+                                | File _ t => if N.eqb pm m then r_text (l_st l) else t
+                                | _ => r_text (l_st l)
+                                end).
   Proof.
     intros Hr Hm Hs. unfold Reloader.poll, Reloader.run_once, Reloader.read_phase. rewrite Hr, Hm, Hs.
     destruct (N.eqb_spec pm m) as [->|Hne].
